@@ -61,8 +61,38 @@ where
                 }
             }
         }
-        out.ok(2 * pairs, true, 0);
-        out.sample(sub, vec![m.to_string()], format!("{pairs} ordered pairs of operations, every second answer unchanged by the first"), true);
+        // shared mutable state in the library sources: one level deeper - every ordered TRIPLE of a sub-menu of up to 24
+        // operations (the third call judged)
+        let (state_lines, _) = crate::report::shared_state_scan();
+        let mut triples = 0u64;
+        if state_lines > 0 {
+            let stride = (m / 24).max(1);
+            let sub_menu: Vec<u64> = (0..m).step_by(stride as usize).take(24).collect();
+            for &a in &sub_menu {
+                for &b in &sub_menu {
+                    for &c in &sub_menu {
+                        let mut scratch = Local::new();
+                        f(a, &mut scratch);
+                        f(b, &mut scratch);
+                        let mut probe = Local::new();
+                        f(c, &mut probe);
+                        triples += 1;
+                        if !probe.viols.is_empty() {
+                            let mut again = Local::new();
+                            f(c, &mut again);
+                            if again.viols.is_empty() {
+                                let v = &probe.viols[0];
+                                out.viol(sub, "result-depends-on-the-previous-calls".into(), vec!["rerun".into()], format!("operation #{c} judged as when it follows itself: holds"), format!("after operations #{a}, #{b}: {} (expected {}, observed {})", v.sig, v.expected, v.observed));
+                                return;
+                            }
+                        }
+                    }
+                }
+            }
+        }
+        out.metric_max("shared_state_lines_in_library_sources", state_lines as f64);
+        out.ok(2 * pairs + 3 * triples, true, 0);
+        out.sample(sub, vec![m.to_string()], format!("{pairs} ordered pairs{} of operations, every last answer unchanged by the earlier calls", if triples > 0 { format!(" and {triples} ordered triples") } else { String::new() }), true);
     });
 }
 
